@@ -164,13 +164,17 @@ def apply_op(U, cfg, x, y, S):
         return x.cast_to(U.dimset(cfg["yd"]))
     if op == "cumsum":
         return x.cumsum(cfg["yd"][0])
+    if op == "cumsum_inplace":
+        if x.cumsum(cfg["yd"][0], inplace=True) is not None:
+            raise AssertionError("in-place call returned a value")
+        return x
     if op == "shares":
         return x.get_shares_over(tuple(cfg["yd"]))
     raise ValueError(op)
 
 
 ORD_OPS = {"min", "max", "abs", "abs_builtin", "sign", "min_s", "max_s", "abs_inplace", "sign_inplace"}
-INPLACE_OPS = {"abs_inplace", "sign_inplace"}
+INPLACE_OPS = {"abs_inplace", "sign_inplace", "cumsum_inplace"}
 NUM_ONLY = {"pow": ((1, 3), (0, 3)), "pow_s": ((1, 3), None), "shares": ((-2, 7), None)}
 
 
@@ -189,6 +193,9 @@ def run_vector(vec):
         # I: values stored with an INTEGER dtype; S: float32; B: all values scaled by 2^40 (exact); N: one entry is NaN
         # T: all values scaled by 2^-40 (no absolute thresholds)
         runs = [("sym", "C"), ("num", "C"), ("num", "F"), ("num", "I"), ("num", "S"), ("num", "B"), ("num", "T"), ("num", "N")]
+        if op in ("cumsum", "cumsum_inplace"):
+            # J: int32 values of magnitude 2^27..2^30 (each fits, running totals do not); K: boolean values (counted, not OR-ed)
+            runs += [("num", "J"), ("num", "K")]
     for mode, layout in runs:
         Poly.seed = cfg["seed"] if op in ORD_OPS else None
         if op in NUM_ONLY:
@@ -211,6 +218,10 @@ def run_vector(vec):
                 a = U.gen_values(k, ds, mode, v, layout if layout in ("C", "F") else "C")
                 if layout == "I":
                     return a.astype(np.int64)
+                if layout == "J":
+                    return np.asarray(a * 2.0 ** 26).astype(np.int32).reshape(a.shape)
+                if layout == "K":
+                    return np.asarray(a.astype(np.int64) % 2).astype(bool).reshape(a.shape)
                 if layout == "S":
                     return a.astype(np.float32)
                 if layout == "B" and mode == "num":
@@ -273,6 +284,10 @@ def run_vector(vec):
             problems += [tag + p for p in compare_array(U, r, exp, mode, lambda g: val(g) * (1 if abs(g[0]) == 9 else fac), rel=True)]
         elif layout == "N":
             problems += [tag + p for p in compare_nan(U, r, exp, cfg)]
+        elif layout == "J":
+            problems += [tag + p for p in compare_array(U, r, exp, mode, lambda g: val(g) * 2 ** 26, rel=True)]
+        elif layout == "K":
+            problems += [tag + p for p in compare_array(U, r, exp, mode, lambda g: Fraction(int(val(g)) % 2))]
         elif layout == "S":
             problems += [tag + p for p in compare_array(U, r, exp, mode, val, tie_ok=op in ORD_OPS, tol=2e-5)]
         else:
